@@ -845,6 +845,74 @@ func describeL2(c *l2Case) map[string]any {
 
 var l2Props = []string{"C01", "C02", "C03", "C04", "C05", "C07", "C08"}
 
+// concurrentFirstUse: for zoo structs that take no part in an embedding pair (those are
+// firstUseOrder's), eight goroutines prepare and run an asterisk insert over the type at
+// the same moment, the very first time the process meets the type; then one more does so
+// alone.  All nine must send the same SQL and arguments, and what is sent must be what the
+// model sends (C16: concurrent Prepare calls that race on first use of a type).
+func concurrentFirstUse(rep *Report, cl *lean.Client, r *rng.R) int {
+	inPair := map[reflect.Type]bool{}
+	for _, outer := range zoo.Entries {
+		if outer.Kind != "struct" {
+			continue
+		}
+		for i := 0; i < outer.Type.NumField(); i++ {
+			f := outer.Type.Field(i)
+			ft := f.Type
+			if ft.Kind() == reflect.Pointer {
+				ft = ft.Elem()
+			}
+			if f.Anonymous && ft.Kind() == reflect.Struct {
+				inPair[outer.Type] = true
+				inPair[ft] = true
+			}
+		}
+	}
+	n := 0
+	for _, e := range zoo.Entries {
+		if e.Bad || e.Kind != "struct" || len(e.Tags) < 3 || inPair[e.Type] {
+			continue
+		}
+		fl := &desc.Filler{R: r.Fork(), Keys: []string{"k"}}
+		fl.N = r.Intn(1000) * 100
+		c := &l2Case{Q: "INSERT INTO t (*) VALUES ($" + e.Name + ".*)", Samples: []any{reflect.Zero(e.Type).Interface()},
+			Args: []any{fl.Fill(e.Type, 0).Interface()}}
+		const g = 8
+		res := make([]*l2Run, g)
+		start := make(chan struct{})
+		var wg sync.WaitGroup
+		for i := 0; i < g; i++ {
+			wg.Add(1)
+			go func(i int) {
+				defer wg.Done()
+				<-start
+				res[i] = runL2Case(c, c.Samples, c.Args)
+			}(i)
+		}
+		close(start)
+		wg.Wait()
+		alone := runL2Case(c, c.Samples, c.Args)
+		n++
+		bad := ""
+		for i := 0; i < g; i++ {
+			if res[i].panic != "" {
+				rep.addCrash(Finding{Case: describeL2(c), Kind: "crash", Detail: "panic during concurrent first use of a type: " + res[i].panic})
+			} else if res[i].key() != alone.key() {
+				bad = fmt.Sprintf("concurrent Prepare calls that met the type for the first time did not all produce what a later call produces: %v vs %v", res[i].obs(), alone.obs())
+			}
+		}
+		if bad == "" && alone.panic == "" {
+			if resp, err := cl.Call(l2Request(c, alone)); err == nil && !getBool(resp, "agree") {
+				bad = fmt.Sprintf("after concurrent first use of the type the statement is not the one the model sends: %v vs %v", alone.obs(), resp["model"])
+			}
+		}
+		if bad != "" {
+			rep.addHolds("C16", Finding{Case: describeL2(c), Kind: "holds", Detail: bad, Holds: map[string]bool{"C16": false}, Impl: alone.obs()})
+		}
+	}
+	return n
+}
+
 // firstUseOrder is run before anything else has touched the process-wide type information
 // cache: for every zoo struct that embeds another zoo struct, a statement over the embedded
 // type is prepared and run FIRST (or the embedding one first, by coin flip), then the other,
@@ -940,6 +1008,7 @@ func runL2(args []string) {
 	hyp := map[string]int{}
 	parseRejected := 0
 
+	hyp["concurrent-first-use-types"] = concurrentFirstUse(rep, cl, r.Fork())
 	hyp["first-use-order-pairs"] = firstUseOrder(rep, r.Fork())
 	for i := 0; i < *n; i++ {
 		if hangCount >= maxHangs {
